@@ -23,28 +23,54 @@ Definition known_discrepancies : list witness := [
   (* setters without any check (DESIGN section 7, F13) *)
   ((CCharacteristics, "adc_bit_resolution"), SSetter, VNum 3);
   ((CCharacteristics, "adc_bit_resolution"), SSetter, VNaN);
+  ((CCharacteristics, "adc_bit_resolution"), SSetter, VInf true);
+  ((CCharacteristics, "adc_bit_resolution"), SSetter, VNpNum 3);
+  ((CCharacteristics, "adc_bit_resolution"), SSetter, VNpNaN);
   ((CCharacteristics, "adc_voltage_range"), SSetter, VSeq 3);
   ((CCharacteristics, "adc_voltage_range"), SSetter, VNum 5);
   ((CCharacteristics, "adc_voltage_range"), SSetter, VNaN);
+  ((CCharacteristics, "adc_voltage_range"), SSetter, VInf true);
+  ((CCharacteristics, "adc_voltage_range"), SSetter, VNpNum 5);
+  ((CCharacteristics, "adc_voltage_range"), SSetter, VNpNaN);
   ((CAPDCharacteristics, "adc_voltage_range"), SSetter, VSeq 3);
   ((CAPDCharacteristics, "adc_voltage_range"), SSetter, VNum 5);
   ((CAPDCharacteristics, "adc_voltage_range"), SSetter, VNaN);
+  ((CAPDCharacteristics, "adc_voltage_range"), SSetter, VInf true);
+  ((CAPDCharacteristics, "adc_voltage_range"), SSetter, VNpNum 5);
+  ((CAPDCharacteristics, "adc_voltage_range"), SSetter, VNpNaN);
   (* constructor without any check (F13) *)
   ((CGeometry, "pixel_scale"), SCtor, VNum (-1));
   ((CGeometry, "pixel_scale"), SCtor, VNaN);
+  ((CGeometry, "pixel_scale"), SCtor, VInf true);
+  ((CGeometry, "pixel_scale"), SCtor, VNpNum (-1));
+  ((CGeometry, "pixel_scale"), SCtor, VNpNaN);
   (* `if x and not (...)`: a falsy out-of-range value is never looked at *)
   ((CAPDCharacteristics, "adc_bit_resolution"), SCtor, VNum 0);
+  ((CAPDCharacteristics, "adc_bit_resolution"), SCtor, VNpNum 0);
   ((CAPDCharacteristics, "adc_voltage_range"), SCtor, VSeq 0);
   ((CAPDCharacteristics, "adc_voltage_range"), SCtor, VNum 0);
+  ((CAPDCharacteristics, "adc_voltage_range"), SCtor, VNpNum 0);
   (* `if x <= lo: raise` / `if x < lo or x > hi: raise`: a NaN is never refused *)
   ((CGeometry, "row"), SCtor, VNaN);
+  ((CGeometry, "row"), SCtor, VNpNaN);
   ((CGeometry, "row"), SSetter, VNaN);
+  ((CGeometry, "row"), SSetter, VNpNaN);
   ((CGeometry, "col"), SCtor, VNaN);
+  ((CGeometry, "col"), SCtor, VNpNaN);
   ((CGeometry, "col"), SSetter, VNaN);
+  ((CGeometry, "col"), SSetter, VNpNaN);
   ((CCharacteristics, "quantum_efficiency"), SSetter, VNaN);
+  ((CCharacteristics, "quantum_efficiency"), SSetter, VNpNaN);
   ((CAPDCharacteristics, "quantum_efficiency"), SSetter, VNaN);
+  ((CAPDCharacteristics, "quantum_efficiency"), SSetter, VNpNaN);
   ((CAPDCharacteristics, "avalanche_gain"), SSetter, VNaN);
-  ((CEnvironment, "wavelength"), SSetter, VNaN)
+  ((CAPDCharacteristics, "avalanche_gain"), SSetter, VNpNaN);
+  ((CEnvironment, "wavelength"), SSetter, VNaN);
+  (* `if isinstance(x, int | float) and not (...)`: a number carried by numpy.int64 / float32 is never looked at *)
+  ((CEnvironment, "temperature"), SCtor, VNpNum (-5));
+  ((CEnvironment, "temperature"), SCtor, VNpNaN);
+  ((CEnvironment, "wavelength"), SCtor, VNpNum (-5));
+  ((CEnvironment, "wavelength"), SCtor, VNpNaN)
 ].
 
 Theorem C12_same_limits_refuted : ~ C12_same_limits_full.
@@ -60,7 +86,7 @@ Print Assumptions C12_same_limits_refuted.
 Theorem C12_same_limits_witnesses :
   forall f s x, In (f, s, x) known_discrepancies ->
   exists r g, lookup_doc documented f = Some r /\ guard_at src_guards f s = Some g /\
-              well_kinded (d_range r) x = true /\ accepts g x <> in_range (d_range r) x.
+              well_kinded (d_range r) x = true /\ agrees (accepts g x) (d_range r) x = false.
 Proof. apply witnesses_are_discrepancies. vm_compute. reflexivity. Qed.
 Print Assumptions C12_same_limits_witnesses.
 
@@ -80,16 +106,16 @@ Proof.
   intro q.
   destruct (C12_same_limits_partial
               (DocRow (CCharacteristics, "quantum_efficiency") (closed 0 1) true) SCtor (VNum q) KNum)
-    as [g [Hg Ha]]; try reflexivity.
+    as [g [Hg [Ha _]]]; try reflexivity.
   - simpl. tauto.
-  - exists g. split; [exact Hg | exact Ha].
+  - exists g. split; [exact Hg | exact (Ha eq_refl)].
 Qed.
 
 Example C12_same_limits_partial_coverage :
   List.length (filter (fun t => match t with (r, s, k) =>
                   negb (excepted (exceptions_of known_discrepancies) (d_key r) s k) &&
                   match d_range r, k with DRange _ _, KSeq => false | _, _ => true end end)
-                (list_prod (list_prod documented [SCtor; SSetter]) [KNum; KNaN; KSeq])) = 59%nat.
+                (list_prod (list_prod documented [SCtor; SSetter]) all_classes)) = 148%nat.
 Proof. vm_compute. reflexivity. Qed.
 
 (* None means "not specified": the constructor takes it exactly for the fields documented as optional *)
@@ -186,3 +212,63 @@ Proof. vm_compute. reflexivity. Qed.
 
 Example C12_arange_len_example : arange_len 1 5 1 = 4%nat /\ arange_len (1#2) 3 (1#4) = 10%nat.
 Proof. vm_compute. split; reflexivity. Qed.
+
+(* ---------------------------------------------------------------------------------- derived objects *)
+
+(* A readout derived from the loaded one — Readout.replace with keyword changes (the dask sweep over
+   'observation.readout.times' calls replace(times=...)), the `times` setter, a copy — is modelled by `derive`:
+   the regenerated list src_replace_carried says which settings replace() hands to the new object. *)
+
+(* every setting of a readout is carried (and nothing the constructor does not take) — over the regenerated lists *)
+Theorem C12_replace_carries_every_setting :
+  (forall k, In k readout_settings -> In (readout_key k) (map readout_key src_replace_carried)) /\
+  (forall k, In k src_replace_carried -> In k src_readout_params).
+Proof. apply carries_all_sound. vm_compute. reflexivity. Qed.
+Print Assumptions C12_replace_carries_every_setting.
+
+(* for ALL settings and changes: a carried setting that is not changed keeps the value of the original, ... *)
+Theorem C12_derived_keeps_unchanged :
+  forall settings changes k,
+    In k (map readout_key src_replace_carried) -> lookup k changes = None ->
+    lookup k (derive (map readout_key src_replace_carried) settings changes) = lookup k settings.
+Proof. intros. apply derive_keeps; assumption. Qed.
+Print Assumptions C12_derived_keeps_unchanged.
+
+(* ... a changed one has the new value, ... *)
+Theorem C12_derived_sets_changed :
+  forall settings changes k v,
+    In k (map readout_key src_replace_carried) -> lookup k changes = Some v ->
+    lookup k (derive (map readout_key src_replace_carried) settings changes) = Some v.
+Proof. intros. eapply derive_sets; eassumption. Qed.
+Print Assumptions C12_derived_sets_changed.
+
+(* ... and nothing else appears. *)
+Theorem C12_derived_nothing_else :
+  forall settings changes k w,
+    lookup k (derive (map readout_key src_replace_carried) settings changes) = Some w ->
+    In k (map readout_key src_replace_carried) /\
+    (lookup k changes = Some w \/ (lookup k changes = None /\ lookup k settings = Some w)).
+Proof. intros. eapply derive_nothing_else; eassumption. Qed.
+Print Assumptions C12_derived_nothing_else.
+
+(* composed with loading: whatever other keys a sweep changes, the readout setting the file wrote (or left to its
+   default) is still the one the derived readout has — e.g. start_time under a sweep of the readout times *)
+Theorem C12_sweep_keeps_file_settings :
+  forall defaults doc changes k,
+    In k readout_settings -> lookup (readout_key k) changes = None ->
+    lookup (readout_key k) (derive (map readout_key src_replace_carried) (build kind_of_key defaults doc) changes)
+    = lookup (readout_key k) (build kind_of_key defaults doc).
+Proof.
+  intros. apply (derived_keeps_file_setting kind_of_key src_readout_params); try assumption.
+  vm_compute. reflexivity.
+Qed.
+Print Assumptions C12_sweep_keeps_file_settings.
+
+Example C12_sweep_example :
+  let doc := [("mode.readout.times", LList [LNum 1]); ("mode.readout.start_time", LNum (1#2))] in
+  let defaults := [("mode.readout.start_time", LNum 0); ("mode.readout.non_destructive", LBool false)] in
+  let swept := derive (map readout_key src_replace_carried) (build kind_of_key defaults doc)
+                      [("mode.readout.times", LList [LNum 4])] in
+  map (fun k => lookup k swept) ["mode.readout.times"; "mode.readout.start_time"; "mode.readout.non_destructive"]
+  = [Some (LList [LNum 4]); Some (LNum (1#2)); Some (LBool false)].
+Proof. vm_compute. reflexivity. Qed.
